@@ -504,6 +504,8 @@ func streamIcpt(c *Ctx) {
 	icptSharedAndMixedProbes(c)
 	doneContextChainProbe(c, "icpt-order")
 	doneContextClientProbe(c)
+	repeatedInterceptorProbe(c)
+	twoRecoversProbe(c)
 	icptValueTypeProbe(c)
 	icptGroupShapeProbes(c)
 	// slices with spare capacity / sub-slices of one backing array (aliasing hazards)
@@ -960,6 +962,183 @@ func doneContextClientProbe(c *Ctx) {
 				}
 			}
 		}
+	}
+}
+
+// repeatedInterceptorProbe: the chain is the flat concatenation of what was declared: an
+// interceptor value declared at two positions wraps the call at both (round 10, C16-mm).
+func repeatedInterceptorProbe(c *Ctx) {
+	h := connect.NewUnaryHandler("/s/m", func(ctx context.Context, r *connect.Request[emptypb.Empty]) (*connect.Response[emptypb.Empty], error) {
+		return connect.NewResponse(&emptypb.Empty{}), nil
+	})
+	for _, shape := range []string{"one-group", "two-groups", "shared-option", "nested"} {
+		for _, side := range []string{"client", "handler"} {
+			for _, kind := range []string{"unary", "stream"} {
+				log := &eventLog{}
+				a, b := &logIcpt{id: 1, log: log}, &logIcpt{id: 2, log: log}
+				var opts []connect.Option
+				switch shape {
+				case "one-group":
+					opts = []connect.Option{connect.WithInterceptors(a, b, a)}
+				case "two-groups":
+					opts = []connect.Option{connect.WithInterceptors(a, b), connect.WithInterceptors(a)}
+				case "shared-option":
+					shared := connect.WithInterceptors(a)
+					opts = []connect.Option{shared, connect.WithInterceptors(b), shared}
+				default:
+					opts = []connect.Option{connect.WithOptions(connect.WithInterceptors(a), connect.WithOptions(connect.WithInterceptors(b, a)))}
+				}
+				if side == "client" {
+					var copts []connect.ClientOption
+					for _, o := range opts {
+						copts = append(copts, o)
+					}
+					var hh http.Handler = h
+					if kind == "stream" {
+						hh = connect.NewClientStreamHandler("/s/m", func(ctx context.Context, s *connect.ClientStream[emptypb.Empty]) (*connect.Response[emptypb.Empty], error) {
+							for s.Receive() {
+							}
+							return connect.NewResponse(&emptypb.Empty{}), nil
+						})
+					}
+					cl := connect.NewClient[emptypb.Empty, emptypb.Empty](&inprocClient{h: hh}, "http://h/s/m", copts...)
+					if kind == "unary" {
+						_, _ = cl.CallUnary(context.Background(), connect.NewRequest(&emptypb.Empty{}))
+					} else {
+						st := cl.CallClientStream(context.Background())
+						_ = st.Send(&emptypb.Empty{})
+						_, _ = st.CloseAndReceive()
+					}
+				} else {
+					var hopts []connect.HandlerOption
+					for _, o := range opts {
+						hopts = append(hopts, o)
+					}
+					var hh http.Handler
+					if kind == "unary" {
+						hh = connect.NewUnaryHandler("/s/m", func(ctx context.Context, r *connect.Request[emptypb.Empty]) (*connect.Response[emptypb.Empty], error) {
+							return connect.NewResponse(&emptypb.Empty{}), nil
+						}, hopts...)
+					} else {
+						hh = connect.NewClientStreamHandler("/s/m", func(ctx context.Context, s *connect.ClientStream[emptypb.Empty]) (*connect.Response[emptypb.Empty], error) {
+							for s.Receive() {
+							}
+							return connect.NewResponse(&emptypb.Empty{}), nil
+						}, hopts...)
+					}
+					cl := connect.NewClient[emptypb.Empty, emptypb.Empty](&inprocClient{h: hh}, "http://h/s/m")
+					if kind == "unary" {
+						_, _ = cl.CallUnary(context.Background(), connect.NewRequest(&emptypb.Empty{}))
+					} else {
+						st := cl.CallClientStream(context.Background())
+						_ = st.Send(&emptypb.Empty{})
+						_, _ = st.CloseAndReceive()
+					}
+				}
+				got := "in=" + idsOf(log.events, "in")
+				c.Count("repeated-interceptor")
+				if got != "in=1,2,1" {
+					c.Fail("icpt-order", fmt.Sprintf("interceptors a, b, a declared as %s on the %s, %s call", shape, side, kind), got, "the effective chain is the flat concatenation in declaration order: in=1,2,1")
+				}
+			}
+		}
+	}
+}
+
+// twoRecoversProbe: two WithRecover options with an interceptor between them keep their places:
+// a panic in the handler is trapped by the inner recovery function and reaches the interceptor as
+// an ordinary error; a panic in the interceptor is trapped by the outer one (round 10, C16-mn).
+func twoRecoversProbe(c *Ctx) {
+	for _, kind := range []string{"unary", "server"} {
+		for _, where := range []string{"handler", "interceptor"} {
+			var calls []string
+			outer := connect.WithRecover(func(context.Context, connect.Spec, http.Header, any) error {
+				calls = append(calls, "outer")
+				return connect.NewError(connect.CodeAborted, errors.New("outer recovered"))
+			})
+			inner := connect.WithRecover(func(context.Context, connect.Spec, http.Header, any) error {
+				calls = append(calls, "inner")
+				return connect.NewError(connect.CodeDataLoss, errors.New("inner recovered"))
+			})
+			mid := &panicOrSeeIcpt{panicHere: where == "interceptor", note: func(s string) { calls = append(calls, s) }}
+			opts := []connect.HandlerOption{outer, connect.WithInterceptors(mid), inner}
+			var h http.Handler
+			if kind == "unary" {
+				h = connect.NewUnaryHandler("/s/m", func(ctx context.Context, r *connect.Request[emptypb.Empty]) (*connect.Response[emptypb.Empty], error) {
+					if where == "handler" {
+						panic("boom")
+					}
+					return connect.NewResponse(&emptypb.Empty{}), nil
+				}, opts...)
+			} else {
+				h = connect.NewServerStreamHandler("/s/m", func(ctx context.Context, r *connect.Request[emptypb.Empty], s *connect.ServerStream[emptypb.Empty]) error {
+					if where == "handler" {
+						panic("boom")
+					}
+					return nil
+				}, opts...)
+			}
+			ic := &inprocClient{h: h}
+			cl := connect.NewClient[emptypb.Empty, emptypb.Empty](ic, "http://h/s/m")
+			var err error
+			got := safely(func() string {
+				if kind == "unary" {
+					_, err = cl.CallUnary(context.Background(), connect.NewRequest(&emptypb.Empty{}))
+				} else {
+					st, cerr := cl.CallServerStream(context.Background(), connect.NewRequest(&emptypb.Empty{}))
+					err = cerr
+					if cerr == nil {
+						for st.Receive() {
+						}
+						err = st.Err()
+						_ = st.Close()
+					}
+				}
+				return fmt.Sprintf("%s code=%s escaped=%v", strings.Join(calls, ","), connect.CodeOf(err), ic.panicked)
+			})
+			want := "inner,mid-saw-error code=data_loss escaped=false"
+			if where == "interceptor" {
+				want = "outer code=aborted escaped=false"
+			}
+			c.Count("two-recovers")
+			if got != want {
+				c.Fail("icpt-recover-position", fmt.Sprintf("%s handler with WithRecover(outer), an interceptor, WithRecover(inner); panic in the %s", kind, where), got, "each recovery interceptor sits where it was declared: "+want)
+			}
+		}
+	}
+}
+
+// panicOrSeeIcpt panics before calling on, or notes the error it sees coming back.
+type panicOrSeeIcpt struct {
+	panicHere bool
+	note      func(string)
+}
+
+func (p *panicOrSeeIcpt) WrapUnary(next connect.UnaryFunc) connect.UnaryFunc {
+	return func(ctx context.Context, req connect.AnyRequest) (connect.AnyResponse, error) {
+		if p.panicHere {
+			panic("interceptor boom")
+		}
+		res, err := next(ctx, req)
+		if err != nil {
+			p.note("mid-saw-error")
+		}
+		return res, err
+	}
+}
+func (p *panicOrSeeIcpt) WrapStreamingClient(next connect.StreamingClientFunc) connect.StreamingClientFunc {
+	return next
+}
+func (p *panicOrSeeIcpt) WrapStreamingHandler(next connect.StreamingHandlerFunc) connect.StreamingHandlerFunc {
+	return func(ctx context.Context, conn connect.StreamingHandlerConn) error {
+		if p.panicHere {
+			panic("interceptor boom")
+		}
+		err := next(ctx, conn)
+		if err != nil {
+			p.note("mid-saw-error")
+		}
+		return err
 	}
 }
 
